@@ -19,7 +19,8 @@ import (
 )
 
 type Facts struct {
-	DispatchKeys   []Dispatch          `json:"dispatchKeys"`   // redactCommand: cmd.Get("<k>") sites with the walkers called below them
+	DispatchKeys   []Dispatch          `json:"dispatchKeys"`   // redactOperation: cmd.Get("<k>") sites with the walkers called below them
+	NestedOps      []Dispatch          `json:"nestedOps"`      // redactCommand: cmd.Get("<k>") sites below which redactOperation is called (explain, bulkWrite ops)
 	AttrCmdKeys    []string            `json:"attrCmdKeys"`    // RedactMongoLog: attr.Get("<k>") whose value is handed to redactCommand
 	GateComponents []string            `json:"gateComponents"` // RedactMongoLog: c == "<X>" literals
 	GateMessages   []string            `json:"gateMessages"`   // RedactMongoLog: msg == "<X>" literals
@@ -170,8 +171,15 @@ func main() {
 	facts := Facts{Fingerprints: map[string]string{}}
 	walkers := map[string]bool{"redactQueryValues": true, "redactArrayValues": true, "redactArrayValuesWithKey": true, "redactPipelineStage": true}
 
-	// ---- redactCommand dispatch
-	if fd := funcDecl(files, "redactCommand"); fd != nil {
+	// ---- redactOperation dispatch (walkers per key), and redactCommand's nested operations (explain, bulkWrite ops)
+	for _, spec := range []struct {
+		fn      string
+		callees map[string]bool
+		into    *[]Dispatch
+	}{{"redactOperation", walkers, &facts.DispatchKeys}, {"redactCommand", map[string]bool{"redactOperation": true}, &facts.NestedOps}} {
+	  walkers := spec.callees
+	  into := spec.into
+	  if fd := funcDecl(files, spec.fn); fd != nil {
 		var visit func(stmts []ast.Stmt, guard string)
 		visit = func(stmts []ast.Stmt, guard string) {
 			for _, st := range stmts {
@@ -206,12 +214,29 @@ func main() {
 				if len(callees) == 0 {
 					continue
 				}
-				facts.DispatchKeys = append(facts.DispatchKeys, Dispatch{Key: key, Callees: callees, Guard: guard, Pos: pos(ifs)})
+				*into = append(*into, Dispatch{Key: key, Callees: callees, Guard: guard, Pos: pos(ifs)})
 			}
 		}
 		visit(fd.Body.List, "")
-	} else {
-		facts.Missing = append(facts.Missing, "func redactCommand")
+		// the operation itself must be redacted unconditionally: a top-level statement `redactOperation(cmd, …)`
+		if spec.fn == "redactCommand" {
+			direct := false
+			for _, st := range fd.Body.List {
+				if es, ok := st.(*ast.ExprStmt); ok {
+					if c, ok := es.X.(*ast.CallExpr); ok && callName(c) == "redactOperation" && len(c.Args) >= 1 {
+						if id, ok := c.Args[0].(*ast.Ident); ok && id.Name == "cmd" {
+							direct = true
+						}
+					}
+				}
+			}
+			if !direct {
+				facts.Missing = append(facts.Missing, "redactCommand: unconditional redactOperation(cmd, …)")
+			}
+		}
+	  } else {
+		facts.Missing = append(facts.Missing, "func "+spec.fn)
+	  }
 	}
 
 	// ---- RedactMongoLog: command attributes, gate
@@ -417,7 +442,7 @@ func main() {
 		walk(runLit.Body.List, 0)
 	}
 
-	for _, nm := range []string{"RedactMongoLog", "redactCommand", "redactNamespace", "redactPipelineStage", "redactQueryValues", "redactArrayValuesWithKey", "redactScalarValue",
+	for _, nm := range []string{"RedactMongoLog", "redactCommand", "redactOperation", "redactNamespace", "redactNamespaceFields", "redactPipelineStage", "redactQueryValues", "redactArrayValuesWithKey", "redactScalarValue",
 		"redactString", "getOp", "traverseMapPath", "augmentOp", "HashName", "IsEmail", "ParsePlanSummary", "redactFieldNamesFromPlanSummary", "UnmarshalOrdered", "parseValue",
 		"marshalOrderedValue", "processMongoLogStream", "ProcessMongoLogFile", "DownloadClusterLogs", "downloadClusterLogsForHost", "getAtlasClusterInfo", "GetHostsFromConnectionString",
 		"GetStartAndEndDates", "ReadKeyFromFile", "WriteKeyToFile", "FileExists"} {
